@@ -164,6 +164,9 @@ func (x *Exec) nilCheck(fr *frame, st *State, l *LocV, pos token.Pos) {
 	if l.Cell != nil || l.Kind == 'G' {
 		return
 	}
+	if l.Kind == 'E' && len(l.Steps) > 0 && l.Steps[0].isIdx {
+		return // element of a slice/array: the bounds obligation covers it
+	}
 	if strings.HasPrefix(l.Ref.S, "new.") {
 		return
 	}
